@@ -99,6 +99,9 @@ pub struct FakeLauncher {
     shared: Shared,
     w: Wid,
     arm_fail: Rc<Cell<bool>>,
+    /// the next execution that is told to stop on this worker takes its time to die: it ends only
+    /// when the harness lets it (a process that does not exit at once on the signal)
+    arm_slow_stop: Rc<Cell<bool>>,
     inert: Rc<Cell<bool>>,
     time_limits: Rc<RefCell<BTreeMap<Tid, Option<u64>>>>,
 }
@@ -170,6 +173,7 @@ impl TaskLauncher for FakeLauncher {
             exec
         };
         let shared = self.shared.clone();
+        let arm_slow_stop = self.arm_slow_stop.clone();
         let context: SerializedTaskContext = tako::comm::serialize(&RunningTaskContext {
             instance_id: ctx.instance_id(),
         })
@@ -211,6 +215,15 @@ impl TaskLauncher for FakeLauncher {
                             sh.execs[exec].stopped = Some(timeout);
                             let step = sh.step;
                             sh.log.push((step, Obs::ExecStop { exec, timeout }));
+                        }
+                        if arm_slow_stop.get() {
+                            // the process got the signal but is still there until the harness
+                            // lets it end (Action::Finish on this execution)
+                            arm_slow_stop.set(false);
+                            let _ = (&mut finish_rx).await;
+                            if inert.get() {
+                                return futures::future::pending().await;
+                            }
                         }
                         if timeout {
                             end(EndHow::Timeouted);
@@ -401,6 +414,7 @@ pub struct WorkerHandle {
     /// the worker processed `Stop` and left its message loop
     pub stopped: bool,
     arm_fail: Rc<Cell<bool>>,
+    arm_slow_stop: Rc<Cell<bool>>,
     inert: Rc<Cell<bool>>,
     pub time_limits: Rc<RefCell<BTreeMap<Tid, Option<u64>>>>,
 }
@@ -761,6 +775,8 @@ impl Sim {
             .try_recv()
             .expect("registration response must be queued first");
         let arm_fail = Rc::new(Cell::new(false));
+        let arm_slow_stop = Rc::new(Cell::new(false));
+        let s2 = arm_slow_stop.clone();
         let inert = Rc::new(Cell::new(false));
         let time_limits = Rc::new(RefCell::new(BTreeMap::new()));
         let shared = self.shared.clone();
@@ -773,6 +789,7 @@ impl Sim {
                 shared,
                 w: id.as_num(),
                 arm_fail: a2,
+                arm_slow_stop: s2,
                 inert: i2,
                 time_limits: t2,
             })
@@ -806,6 +823,7 @@ impl Sim {
                 connected_at_s: at_s,
                 stopped: false,
                 arm_fail,
+                arm_slow_stop,
                 inert,
                 time_limits,
             },
@@ -984,6 +1002,12 @@ impl Sim {
             w.sim.shift_start_time(Duration::from_secs(secs));
         }
         tokio::time::advance(Duration::from_secs(secs)).await;
+    }
+
+    pub fn arm_slow_stop(&mut self, wid: Wid) {
+        if let Some(w) = self.workers.get(&wid) {
+            w.arm_slow_stop.set(true);
+        }
     }
 
     pub fn arm_launch_fail(&mut self, wid: Wid) {
